@@ -1211,6 +1211,9 @@ struct TemplateCore {
                             }
                         }
                     }
+
+                    // Not a placeholder of this tag: it stays text, and scanning goes on right after the '{'.
+                    index = start;
                 }
 
                 ++index;
